@@ -234,6 +234,10 @@ impl SemaphoreState {
                     wait_node.task = Some(cx.waker().clone());
                     wait_node.state = PollState::Waiting;
                     self.waiters.add_front(wait_node);
+                    // This task gave up its notification and went to the back
+                    // of the queue. The waiter which is now the oldest one
+                    // might fit into the remaining permits and must be woken.
+                    self.wakeup_waiters();
                     Poll::Pending
                 }
             }
